@@ -149,3 +149,8 @@ theorem sound_prefix : Sound encPrefix prefix' := by
   subst c1; subst c2; subst c3; subst c4; subst c5
   simp [encPrefix]
 
+
+theorem flatten_singletons' (l : Bytes) : (l.map fun b => [b]).flatten = l := by
+  induction l with
+  | nil => rfl
+  | cons a t ih => simp [ih]
